@@ -91,8 +91,7 @@ fn loadable(s: FileState) -> Option<u8> {
 /// The harness's world: a directory, the server and the current catalog.
 struct World {
     dir: PathBuf,
-    server: Server,
-    catalog: Arc<Catalog>,
+    daemon: verif_access::Daemon,
     mtime_counter: u64,
     configured: u8,
     files: [FileState; 3],
@@ -156,7 +155,8 @@ impl World {
     fn new(dir: PathBuf) -> World {
         let _ = std::fs::remove_dir_all(&dir);
         std::fs::create_dir_all(&dir).expect("scratch dir");
-        World { dir, server: Server::new(Arc::new(Catalog::new())), catalog: Arc::new(Catalog::new()), mtime_counter: 0, configured: 0, files: [FileState::Missing; 3] }
+        let daemon = verif_access::Daemon { config_path: dir.join("quandary.toml"), server: Arc::new(Server::new(Arc::new(Catalog::new()))), catalog: Arc::new(Catalog::new()) };
+        World { dir, daemon, mtime_counter: 0, configured: 0, files: [FileState::Missing; 3] }
     }
 
     fn config_path(&self) -> PathBuf {
@@ -199,7 +199,7 @@ impl World {
     fn start(&mut self) -> Result<(), String> {
         self.write_config();
         let cp = self.config_path();
-        self.catalog = verif_access::initial_load(&cp, &self.server).map_err(|e| format!("{e:#}"))?;
+        self.daemon.catalog = verif_access::initial_load(&cp, &self.daemon.server).map_err(|e| format!("{e:#}"))?;
         Ok(())
     }
 
@@ -211,8 +211,8 @@ impl World {
             }
             Event::File(z, s) => self.write_file(*z, *s),
         }
-        let cp = self.config_path();
-        self.catalog = verif_access::reload(&cp, &self.server, &self.catalog).map_err(|e| format!("{e:#}"))?;
+        // The SIGHUP arm logs reload errors and carries on; so does this.
+        verif_access::sighup(&mut self.daemon);
         Ok(())
     }
 
@@ -220,7 +220,7 @@ impl World {
         let req = wire::simple_query(0x3131, &wname(probe), t::TXT, c::IN);
         let mut buf = vec![0u8; 4096];
         let info = ReceivedInfo::new("127.0.0.1".parse().unwrap(), Transport::Udp);
-        let n = match self.server.handle_message(&req, info, &mut buf) {
+        let n = match self.daemon.server.handle_message(&req, info, &mut buf) {
             Response::Single(n) => n,
             Response::None => return Obs::Other("no response".into()),
         };
